@@ -421,8 +421,11 @@ impl<'s> Tokenizer<'s> {
     fn syntax_error(&mut self, msg: &'static str) -> Error {
         let mut span = self.span(self.loc());
         if span.start_col == span.end_col {
-            span.end_col += 1;
-            span.end_offset += 1;
+            // mark the next character, if there is one.  The column counter
+            // saturates and the range must stay a valid slice of the source.
+            let next_len = self.rest().chars().next().map_or(0, |c| c.len_utf8());
+            span.end_col = span.end_col.saturating_add(1);
+            span.end_offset += next_len as u32;
         }
         let mut err = Error::new(ErrorKind::SyntaxError, msg);
         err.set_filename_and_span(self.filename, span);
